@@ -20,7 +20,7 @@ MEMORY_ERRORS = ("IndexError", "UnboundLocalError")
 
 def design(ctx):
     runs = [
-        ("CooBuffer", dict(LIMIT=3, CAP0=20, Keys=E("0..3"), Vals=E("{1}"), MaxAppends=ctx.pick(9, 12), FIXED=True, EMIT=False),
+        ("CooBuffer", dict(LIMIT=3, CAP0=20, Keys=E("0..3"), Vals=E("{1}"), MaxAppends=ctx.pick(8, 12), FIXED=True, EMIT=False),
          ["NoOOB", "Room", "Layout", "RunsSorted"], dict(view="view")),
         ("EMStep", dict(V=2, MaxLen=ctx.pick(3, 4), R=2, PMax=1, GUARDED=True, EMIT=False), ["NoOOB", "AlgIsDecl"], {}),
         ("BPE", dict(Alphabet=E("{1,2}"), MaxLen=ctx.pick(3, 4), MaxStrings=2, MaxMerges=2, FIXED=True), ["ContractionSafe"], {}),
@@ -32,7 +32,7 @@ def design(ctx):
         ctx.tlc_violation(r, "%s access invariants" % mod)
     allx = sw_cfg.instances("quick", ctx.seed)["all"]
     rng = random.Random(ctx.seed)
-    sub = rng.sample(allx, 3000)
+    sub = rng.sample(allx, ctx.pick(800, 6000))
     r = tlc.run_tlc("SlidingWindow", dict(Insts=[sw_cfg.tla_inst(x) for x in sub], EMIT=False), invariants=["InRange", "LastFits"], workers=4,
                     timeout=3000)
     ctx.add_tlc(r, "SlidingWindow InRange")
